@@ -6,6 +6,29 @@ import Verif.Model.Store
 namespace Verif.Proofs.Store
 open Verif.Model.Store
 
+/-! ### the subtype table -/
+
+theorem baseSub_refl (a : Base) : baseSub a a = true := by cases a <;> rfl
+
+theorem baseSub_trans (a b c : Base) (h1 : baseSub a b = true) (h2 : baseSub b c = true) : baseSub a c = true := by
+  cases a <;> cases b <;> first | (exact absurd h1 (by decide)) | (cases c <;> first | rfl | exact absurd h2 (by decide))
+
+theorem baseSub_antisymm (a b : Base) (h1 : baseSub a b = true) (h2 : baseSub b a = true) : a = b := by
+  cases a <;> cases b <;> first | rfl | exact absurd h1 (by decide) | exact absurd h2 (by decide)
+
+/-- only a top type is above a top type -/
+theorem baseSub_top_left (a b : Base) (h : baseSub a b = true) (ha : a.isTop = true) : b.isTop = true := by
+  cases a <;> cases b <;> first | rfl | exact absurd h (by decide) | exact absurd ha (by decide)
+
+theorem baseSub_same_kind (a b : Base) (h : baseSub a b = true) (hn : a ≠ .never) : a.isRes = b.isRes := by
+  cases a <;> cases b <;> first | rfl | exact absurd h (by decide) | exact absurd rfl hn
+
+theorem subtype_iff (a b : Ty) :
+    subtype a b = true ↔ baseSub a.base b.base = true ∧ (b.base.isTop = true ∨ a.opt ≤ b.opt) := by
+  simp [subtype]
+
+/-! ### the association list -/
+
 theorem getAt_cons (e : Key × Val) (s : Store) (k : Key) :
     getAt (e :: s) k = if k = e.1 then some e.2 else getAt s k := by
   obtain ⟨k0, v0⟩ := e
